@@ -311,7 +311,7 @@ pub mod subscriber {
     }
 //@fn src/api/subscriber.rs conflict tags=C10
 //@ ret r
-//@ ensures[C10] r.code == Code::FailedPrecondition
+//@ ensures[C10,NEEDS-WITNESS] r.code == Code::FailedPrecondition
 //@end
 //@fn src/api/subscriber.rs subscription_not_found tags=C10
 //@ ret r
@@ -332,14 +332,14 @@ pub mod subscriber {
 //@ region /GetTopicError::DoesNotExist => \{/ /GetTopicError::Closed => conflict\(\),/ as fn create_subscription_topic_status(e: GetTopicError, topic_name: &TopicName) -> (r: Status)
 //@ # C10: CreateSubscription on an absent topic is NOT_FOUND
 //@ ensures[C10] e is DoesNotExist ==> r.code == Code::NotFound
-//@ ensures[C10] e is Closed ==> r.code == Code::FailedPrecondition
+//@ ensures[C10,NEEDS-WITNESS] e is Closed ==> r.code == Code::FailedPrecondition
 //@end
 //@fn src/api/subscriber.rs SubscriberService::create_subscription tags=C10 name=create_subscription_status head=match~e~{ tail=}
 //@ region /CreateSubscriptionError::AlreadyExists => Status::already_exists\(/ /CreateSubscriptionError::Closed => conflict\(\),/ as fn create_subscription_status(e: CreateSubscriptionError, subscription_name: &SubscriptionName) -> (r: Status)
 //@ # C10: an existing name is ALREADY_EXISTS, a topic in another project INVALID_ARGUMENT
 //@ ensures[C10] e is AlreadyExists ==> r.code == Code::AlreadyExists
 //@ ensures[C10,C17] e is MustBeInSameProjectAsTopic ==> r.code == Code::InvalidArgument
-//@ ensures[C10] e is Closed ==> r.code == Code::FailedPrecondition
+//@ ensures[C10,NEEDS-WITNESS] e is Closed ==> r.code == Code::FailedPrecondition
 //@end
 
 //@fn src/api/subscriber.rs map_to_subscription_resource tags=C10 keep-paths=1
@@ -411,7 +411,7 @@ pub mod publisher {
     pub struct PublisherService { pub topic_manager: Arc<TopicManager> }
 //@fn src/api/publisher.rs conflict tags=C10
 //@ ret r
-//@ ensures[C10] r.code == Code::FailedPrecondition
+//@ ensures[C10,NEEDS-WITNESS] r.code == Code::FailedPrecondition
 //@end
 //@fn src/api/publisher.rs topic_not_found tags=C10
 //@ ret r
@@ -423,7 +423,7 @@ pub mod publisher {
 //@ region /CreateTopicError::AlreadyExists => Status::already_exists\(/ /CreateTopicError::Closed => conflict\(\),/ as fn create_topic_status(e: CreateTopicError) -> (r: Status)
 //@ # C10: CreateTopic on an existing name is ALREADY_EXISTS
 //@ ensures[C10] e is AlreadyExists ==> r.code == Code::AlreadyExists
-//@ ensures[C10] e is Closed ==> r.code == Code::FailedPrecondition
+//@ ensures[C10,NEEDS-WITNESS] e is Closed ==> r.code == Code::FailedPrecondition
 //@end
     pub mod parser {
         use super::super::*;
